@@ -2553,9 +2553,18 @@ fn malleable(out: &mut Out, rng: &mut Rng) {
 }
 
 fn main() {
+	let mode = std::env::args().nth(1).unwrap_or_else(|| "codec".to_string());
+	if mode == "zeropanic" {
+		// diagnostic only (not part of a check): the panic of sign_with_blinding(zero) with the
+		// default panic hook, so that message, location and (RUST_BACKTRACE=1) backtrace are printed
+		let kc = ExtKeychain::from_seed(&[7u8; 32], false).unwrap();
+		let msg = secp::Message::from_slice(&[1u8; 32]).unwrap();
+		let r = kc.sign_with_blinding(&msg, &BlindingFactor::zero());
+		println!("returned {:?}", r.is_ok());
+		return;
+	}
 	quiet_panics();
 	global::set_local_chain_type(ChainTypes::AutomatedTesting);
-	let mode = std::env::args().nth(1).unwrap_or_else(|| "codec".to_string());
 	let mut rng = Rng::new(seed_from_env() ^ (mode.len() as u64 * 0x9e37 + mode.as_bytes()[0] as u64));
 	let thorough = tier_thorough();
 	let mut out = Out::stdout();
